@@ -1,8 +1,9 @@
-SPECIFICATION GSpec
+SPECIFICATION Spec
 CONSTANT Archives <- MCArchives
 CONSTANT MaxCalls = 3
-CONSTANT WriteGuarded = TRUE
+CONSTANT WriteGuarded = FALSE
 CONSTANT TestZipResets = TRUE
-CONSTRAINT Emit
+INVARIANT Restriction
 INVARIANT Repeatable
+PROPERTY Untouched
 CHECK_DEADLOCK FALSE
